@@ -115,6 +115,99 @@ func substSx(s *sx, m map[string]string) *sx {
 	return n
 }
 
+// canonSx renders f with its bound variables renamed in order of appearance, so that two
+// evaluations of the same contract formula (which differ only in binder numbering) compare equal.
+func canonSx(f *sx) string {
+	ren := map[string]string{}
+	var walk func(f *sx) *sx
+	walk = func(f *sx) *sx {
+		if f.list == nil {
+			if r, ok := ren[f.atom]; ok {
+				return &sx{atom: r}
+			}
+			return f
+		}
+		if h := f.head(); (h == "forall" || h == "exists") && len(f.list) == 3 {
+			for _, b := range f.list[1].list {
+				if len(b.list) == 2 && b.list[0].isAtom() {
+					ren[b.list[0].atom] = fmt.Sprintf("#b%d", len(ren))
+				}
+			}
+		}
+		n := &sx{list: make([]*sx, len(f.list))}
+		for i, c := range f.list {
+			n.list[i] = walk(c)
+		}
+		return n
+	}
+	return walk(f).String()
+}
+
+// modusPonens replaces every hypothesis (=> P C) whose antecedent P (or each conjunct of P) is
+// itself among the hypotheses, up to renaming of bound variables, by C. Sound (modus ponens).
+func modusPonens(pc []string) []string {
+	known := map[string]bool{}
+	var note func(t *sx)
+	note = func(t *sx) {
+		known[canonSx(t)] = true
+		if t.head() == "and" {
+			for _, c := range t.list[1:] {
+				note(c)
+			}
+		}
+	}
+	parsed := make([]*sx, len(pc))
+	any := false
+	for i, p := range pc {
+		if !strings.Contains(p, "(forall ") {
+			continue // only quantified antecedents are worth the trouble (the others the solver matches itself)
+		}
+		if t, err := parseSx(p); err == nil {
+			parsed[i] = t
+			if t.head() == "=>" {
+				any = true
+			} else {
+				note(t)
+			}
+		}
+	}
+	if !any {
+		return pc
+	}
+	var holds func(t *sx) bool
+	holds = func(t *sx) bool {
+		if known[canonSx(t)] {
+			return true
+		}
+		if t.head() == "and" {
+			for _, c := range t.list[1:] {
+				if !holds(c) {
+					return false
+				}
+			}
+			return true
+		}
+		return false
+	}
+	out := append([]string(nil), pc...)
+	for round := 0; round < 3; round++ {
+		changed := false
+		for i, t := range parsed {
+			for t != nil && t.head() == "=>" && len(t.list) == 3 && containsQuant(t.list[1]) && holds(t.list[1]) {
+				t = t.list[2]
+				parsed[i] = t
+				out[i] = t.String()
+				note(t)
+				changed = true
+			}
+		}
+		if !changed {
+			break
+		}
+	}
+	return out
+}
+
 // stripBang removes (! body :pattern ...) annotations.
 func stripBang(s *sx) *sx {
 	if s.head() == "!" && len(s.list) >= 2 {
@@ -136,6 +229,88 @@ type instantiator struct {
 	variants []string // skolem +-1, skolem - length: last in the candidate order
 	refCands []string // object references (for binders over pointers)
 	refPrime []string // skolem constants of object binders
+	nest     int
+	trig     bool     // the instance being emitted comes from a trigger (not from blind enumeration)
+	trigOut  []string // trigger-generated instances (their abstract-function terms become triggers in turn)
+	absPrio  map[string]int // abstract-function argument term -> priority (0 goal, 1 path, 2 instances)
+	curPrio  int
+	absArgs  map[string][][]string // ground applications of abstract spec functions: function -> argument lists
+}
+
+// noteAbsTerms records the ground applications (abs!F t1 .. tn) occurring in f (outside binders).
+func (in *instantiator) noteAbsTerms(f *sx) {
+	if f.list == nil {
+		return
+	}
+	h := f.head()
+	if h == "forall" || h == "exists" {
+		return
+	}
+	for _, c := range f.list {
+		in.noteAbsTerms(c)
+	}
+	if strings.HasPrefix(h, "abs!") && len(f.list) > 1 {
+		var args []string
+		for _, a := range f.list[1:] {
+			t := a.String()
+			if strings.Contains(t, "q!") || len(t) > 200 {
+				return
+			}
+			args = append(args, t)
+		}
+		if in.absArgs == nil {
+			in.absArgs = map[string][][]string{}
+		}
+		for _, old := range in.absArgs[h] {
+			if strings.Join(old, "\x00") == strings.Join(args, "\x00") {
+				return
+			}
+		}
+		if len(in.absArgs[h]) < 40 {
+			in.absArgs[h] = append(in.absArgs[h], args)
+		}
+		if in.absPrio == nil {
+			in.absPrio = map[string]int{}
+		}
+		for _, a := range args {
+			if old, ok := in.absPrio[a]; !ok || in.curPrio < old {
+				in.absPrio[a] = in.curPrio
+			}
+		}
+	}
+}
+
+// trigCands: the ground terms at which binder name is worth instantiating because body applies an
+// abstract spec function directly to it (E-matching with the single-argument pattern (abs!F .. x ..)).
+func (in *instantiator) trigCands(body *sx, name string) []string {
+	var out []string
+	seen := map[string]bool{}
+	var walk func(f *sx)
+	walk = func(f *sx) {
+		if f.list == nil {
+			return
+		}
+		h := f.head()
+		if strings.HasPrefix(h, "abs!") {
+			for i, a := range f.list[1:] {
+				if a.isAtom() && a.atom == name {
+					for _, args := range in.absArgs[h] {
+						if i < len(args) && !seen[args[i]] {
+							seen[args[i]] = true
+							out = append(out, args[i])
+						}
+					}
+				}
+			}
+		}
+		for _, c := range f.list {
+			walk(c)
+		}
+	}
+	walk(body)
+	// terms of the goal first, then terms of the path, then terms that only instances introduced
+	sort.SliceStable(out, func(a, b int) bool { return in.absPrio[out[a]] < in.absPrio[out[b]] })
+	return out
 }
 
 // order fixes the final candidate order: skolems, then the path's index terms, then variants.
@@ -201,7 +376,8 @@ func (in *instantiator) collect(f *sx, guards []string) {
 			if len(in.out) >= in.limit {
 				return
 			}
-			inst := substSx(body, m).String()
+			instSx := substSx(body, m)
+			inst := instSx.String()
 			g := inst
 			if len(guards) > 0 {
 				g = "(=> (and " + strings.Join(guards, " ") + ") " + inst + ")"
@@ -209,7 +385,70 @@ func (in *instantiator) collect(f *sx, guards []string) {
 			if !in.seen[g] {
 				in.seen[g] = true
 				in.out = append(in.out, g)
+				if in.trig || in.nest > 0 {
+					in.trigOut = append(in.trigOut, g)
+				}
+				if in.nest < 2 && len(in.absArgs) > 0 && containsQuant(instSx) {
+					// nested quantifiers of the instance (e.g. the bytes of the i-th cell) are instantiated too
+					in.nest++
+					in.collect(instSx, guards)
+					in.nest--
+				}
 			}
+		}
+		if len(in.absArgs) > 0 {
+			// trigger-based instances first (abstract spec functions applied to the binders)
+			var tc [][]string
+			all := true
+			for _, n := range names {
+				c := in.trigCands(body, n)
+				if len(c) == 0 {
+					all = false
+					break
+				}
+				max := 24
+				if len(names) == 2 {
+					max = 8
+				}
+				if len(c) > max {
+					c = c[:max]
+				}
+				tc = append(tc, c)
+			}
+			in.trig = true
+			if all && len(names) == 1 {
+				for _, c := range tc[0] {
+					emit(map[string]string{names[0]: c})
+				}
+			} else if all && len(names) == 2 {
+				for _, c1 := range tc[0] {
+					for _, c2 := range tc[1] {
+						emit(map[string]string{names[0]: c1, names[1]: c2})
+					}
+				}
+			}
+			in.trig = false
+			if all && envInt("GOVC_TRIGONLY", 0) == 1 {
+				// a hypothesis about abstract functions of its binders is instantiated where those
+				// functions are applied (as E-matching would), not at every index term of the path
+				return
+			}
+		}
+		if in.nest > 0 && len(in.absArgs) > 0 {
+			// nested quantifier of an instance: trigger-based instances only (plus the skolem
+			// constants when there is no trigger), to keep the query small
+			hasTrig := true
+			for _, n := range names {
+				if len(in.trigCands(body, n)) == 0 {
+					hasTrig = false
+				}
+			}
+			if !hasTrig && len(names) == 1 && !strings.HasPrefix(names[0], "q!ref.") {
+				for _, c := range in.prime {
+					emit(map[string]string{names[0]: c})
+				}
+			}
+			return
 		}
 		if len(names) == 1 {
 			cs := in.cands
